@@ -305,7 +305,7 @@ private:
 		bool sign = (rhs < 0) ? true : false;
 		long long v = sign ? -rhs : rhs; // project to positive side of the projective reals
 		uint8_t raw = 0;
-		if (v > 48 || v == rhs) { // +-maxpos
+		if (v > 48 || (sign && v == rhs)) { // +-maxpos, the most negative value is its own negation
 			raw = 0x7F;
 		}
 		else if (v < 2) {
